@@ -193,3 +193,61 @@ func (o *Once) Do(f func()) {
 	defer func() { o.running = false; o.done = true }()
 	f()
 }
+
+// Cond mirrors sync.Cond.
+type Cond struct {
+	L       Locker
+	real    *sync.Cond
+	waiters []*condWaiter
+}
+
+type condWaiter struct{ signaled bool }
+
+// NewCond mirrors sync.NewCond.
+func NewCond(l Locker) *Cond { return &Cond{L: l, real: sync.NewCond(l)} }
+
+func (c *Cond) Wait() {
+	s := sched.Cur()
+	if s == nil {
+		if sched.Aborting() {
+			return
+		}
+		c.real.Wait()
+		return
+	}
+	w := &condWaiter{}
+	c.waiters = append(c.waiters, w)
+	c.L.Unlock()
+	s.Point(fmt.Sprintf("cond-wait %p", c), func() bool { return w.signaled })
+	c.L.Lock()
+}
+
+func (c *Cond) Signal() {
+	s := sched.Cur()
+	if s == nil {
+		if !sched.Aborting() {
+			c.real.Signal()
+		}
+		return
+	}
+	s.Point(fmt.Sprintf("cond-signal %p", c), nil)
+	if len(c.waiters) > 0 {
+		c.waiters[0].signaled = true
+		c.waiters = c.waiters[1:]
+	}
+}
+
+func (c *Cond) Broadcast() {
+	s := sched.Cur()
+	if s == nil {
+		if !sched.Aborting() {
+			c.real.Broadcast()
+		}
+		return
+	}
+	s.Point(fmt.Sprintf("cond-broadcast %p", c), nil)
+	for _, w := range c.waiters {
+		w.signaled = true
+	}
+	c.waiters = nil
+}
